@@ -92,13 +92,12 @@ def side_checks(ctx, env, res, opts, side, k):
     tol = k * (cert["scale"] + abs(cert["const"]))
     ok = True
     if cert["max_nonconst"] > tol:
-        ex = oracles.residual_after_entry_equalities(cert["R"], ll)
-        if ex is not None and ex[0] <= tol:
-            ctx.label("known-nonsymmetric-lmi-certificate")
-        else:
-            ctx.fail("%s:certificate-identity" % side, "certificate identity residual %.3e (tol %.1e) with the multipliers "
-                     "attached by the %s back-end" % (cert["max_nonconst"], tol, side))
+        ctx.fail("%s:certificate-identity" % side, "certificate identity residual %.3e (tol %.1e) with the multipliers "
+                 "attached by the %s back-end" % (cert["max_nonconst"], tol, side))
         ok = False
+    if cert.get("entry_sym_err", 0.0) > tol:
+        ctx.fail("%s:entry-multipliers-inconsistent-with-lmi-multiplier" % side,
+                 "symmetric part of entries_dual_variable_value differs from the LMI multiplier by %.3e" % cert["entry_sym_err"])
     if cert["min_ineq_dual"] < -tol:
         ctx.fail("%s:negative-inequality-multiplier" % side, "%.3e" % cert["min_ineq_dual"])
     if cert["min_eig_S"] < -tol:
